@@ -1141,6 +1141,37 @@ static void run_c08(const Case &c, XorShift &x) {
   attr_override.clear();
 }
 
+
+// C08, uninitialised memory in the image: the plain (non-sanitizer) build flips glibc's M_PERTURB byte
+// between two builds of the same case; fresh heap memory is then filled with different garbage, so any
+// image byte that was never written differs.  (tcache is switched off by the driver: GLIBC_TUNABLES.)
+static void run_c08_perturb(const Case &c) {
+#ifdef VERIF_PLAIN
+  attr_override = "C08";
+  std::string imgs[2];
+  bool ok = true;
+  for (int k = 0; k < 2 && ok; k++) {
+    mallopt(M_PERTURB, k ? 0xEE : 0x11);
+    cur->state = "fresh";
+    StringDictionary *d = do_build(c);
+    ok = d && do_save(d, imgs[k]);
+    do_destroy(d);
+  }
+  mallopt(M_PERTURB, 0);
+  if (ok) {
+    cur->labels.insert("c08_perturb_pair");
+    if (imgs[0] != imgs[1]) {
+      size_t at = 0;
+      while (at < imgs[0].size() && at < imgs[1].size() && imgs[0][at] == imgs[1][at]) at++;
+      ev("C08", "uninitialised-bytes-in-image", "two builds under different heap fill patterns give different images (sizes " + std::to_string(imgs[0].size()) + "/" + std::to_string(imgs[1].size()) + ", first difference at byte " + std::to_string(at) + "): the image contains memory that was never written");
+    }
+  }
+  attr_override.clear();
+#else
+  (void)c;
+#endif
+}
+
 // ------------------------------------------------------------------ C12: tuning parameters never change answers
 static bool params_differ_in_layout(const Case &a, const Case &b) {
   int k = a.p.kind;
@@ -1538,8 +1569,8 @@ int run_case(const uint8_t *data, size_t n, CaseCtx &ctx) {
     run_c06(c, x);
     ctx.nontrivial = nn >= 2 && ctx.labels.count("c06_stream_of_two");
   } else if (P == "C08") {
-    run_c08(c, x);
-    ctx.nontrivial = nn >= 2 && ctx.counters["saves"] >= 2;
+    if (cfg.param == "perturb") { run_c08_perturb(c); ctx.nontrivial = nn >= 2 && ctx.labels.count("c08_perturb_pair"); }
+    else { run_c08(c, x); ctx.nontrivial = nn >= 2 && ctx.counters["saves"] >= 2; }
   } else if (P == "C12") {
     Src rest(c.opbytes.data(), c.opbytes.size());
     run_c12(c, rest, x);
